@@ -133,7 +133,8 @@ def run(repo: Repo, rep: Report, tier: str) -> None:
         fn = hmod.classes["EndpointResponseHandlerGenerator"].methods.get(mname)
         if fn is None:
             raise AnalysisError(f"anchor vanished: {mname}")
-        with_flatten_fallback(rep, fn, _json_guard)
+        with_flatten_fallback(rep, fn, _json_guard, select=lambda h: any(isinstance(x, ast.JoinedStr) and "cast(" in "".join(
+            str(v.value) for v in x.values if isinstance(v, ast.Constant)) for x in ast.walk(h.node)))
 
     # ---------------------------------------------------------------- R5.5 no-content => None
     grh = hmod.classes["EndpointResponseHandlerGenerator"].methods.get("generate_response_handling")
@@ -517,6 +518,11 @@ def _json_guard(fn: Function, rep: Report) -> None:
                 t = template_of(c.args[0], fn.node)
                 if t is not None and "cast(" in t.text and ("response.json()" in t.text or any("response.json()" in full(FL.inline(h)) for h in t.holes)):
                     emits.append((nd, c))
+        # the same expression built into a local first (`expr = f"cast({t}, {data})"` ... `write_line("return " + expr)`)
+        if isinstance(nd.ast, ast.Assign) and isinstance(nd.ast.value, ast.JoinedStr):
+            t = template_of(nd.ast.value, fn.node)
+            if t is not None and "cast(" in t.text and ("response.json()" in t.text or any("response.json()" in full(FL.inline(h)) for h in t.holes)):
+                emits.append((nd, ast.Call(func=ast.Name(id="<built>", ctx=ast.Load()), args=[nd.ast.value], keywords=[], lineno=nd.ast.lineno, col_offset=0)))
     if not emits:
         rep.error(f"R5.4: no `cast(<type>, response.json())` emit found in {fn.qualname} (anchor)")
         return
@@ -526,7 +532,7 @@ def _json_guard(fn: Function, rep: Report) -> None:
         for n in cfg.nodes:
             if n.kind == "stmt" and n.ast is not None and not n.copy:
                 for cc in calls_in(n.ast):
-                    if isinstance(cc.func, ast.Attribute) and cc.func.attr == "write_line" and cc.args and snippet in norm(cc.args[0]):
+                    if isinstance(cc.func, ast.Attribute) and cc.func.attr == "write_line" and cc.args and (snippet in norm(cc.args[0]) or snippet in norm(FL.inline(cc.args[0], stop=tuple(FL.params)))):
                         out.append(n)
         return out
 
